@@ -108,3 +108,74 @@ func TestVerifC05_ItemCaches(t *testing.T) {
 func TestVerifC05_ChunkCacheHistory(t *testing.T) {
 	rapid.Check(t, func(t *rapid.T) { cacheMachineProp(t, "C05/chunk-cache-history") })
 }
+
+// The same search twice through one matcher (the matcher keeps scratch memory per worker between
+// searches): the ranked list of the second and third search equals that of the first, also when
+// the list holds lines so long that the optimal algorithm hands over to the greedy one.
+func TestVerifC05_SameSearchAgain(t *testing.T) {
+	rapid.Check(t, func(t *rapid.T) {
+		algo.Init("default")
+		sortCriteria = []criterion{byScore, byLength}
+		pat := rapid.SampledFrom([]string{"ab", "abc", "ba"}).Draw(t, "query")
+		n := rapid.IntRange(2, 6).Draw(t, "nlines")
+		lines := make([]string, n)
+		long := 0
+		for i := range lines {
+			tlen := rapid.SampledFrom([]int{40, 300, 30000, 52000, 60000, 110000}).Draw(t, "len")
+			text := []rune(strings.Repeat("x", tlen))
+			// a scattered occurrence first, a contiguous one later: the two algorithms disagree
+			p1 := rapid.IntRange(0, tlen/3).Draw(t, "scatteredAt")
+			for k, r := range pat {
+				if p1+k*7 < tlen {
+					text[p1+k*7] = r
+				}
+			}
+			if rapid.Bool().Draw(t, "contiguousToo") {
+				p2 := rapid.IntRange(tlen/2, tlen-len(pat)).Draw(t, "contiguousAt")
+				copy(text[p2:], []rune(pat))
+			}
+			if tlen*len(pat) > 100*1024 {
+				long++
+			}
+			lines[i] = string(text)
+		}
+		_, chunks := buildChunks(lines, 0)
+		cache := NewChunkCache()
+		m := NewMatcher(cache, nil, true, false, util.NewEventBox(), revision{})
+		m.partitions = rapid.SampledFrom([]int{1, 2, 8}).Draw(t, "partitions")
+		m.slab = make([]*util.Slab, m.partitions)
+		mk := func(q string) *Pattern {
+			return BuildPattern(cache, map[string]*Pattern{}, true, algo.FuzzyMatchV2, true, CaseSmart, true, true, false, false, nil, Delimiter{}, revision{}, []rune(q), nil)
+		}
+		describeList := func(mg *Merger) string {
+			var sb strings.Builder
+			for i := 0; i < mg.Length(); i++ {
+				r := mg.Get(i)
+				fmt.Fprintf(&sb, "#%d%v ", r.item.Index(), r.points)
+			}
+			return sb.String()
+		}
+		var first string
+		rounds := rapid.IntRange(2, 4).Draw(t, "searches")
+		for r := 0; r < rounds; r++ {
+			if r > 0 && rapid.Bool().Draw(t, "otherQueryBetween") {
+				m.scan(MatchRequest{chunks: chunks, pattern: mk("x"), sort: true})
+			}
+			mg, cancelled := m.scan(MatchRequest{chunks: chunks, pattern: mk(pat), sort: true})
+			if cancelled || mg == nil {
+				t.Fatalf("scan cancelled")
+			}
+			got := describeList(mg)
+			if r == 0 {
+				first = got
+			} else if got != first {
+				lens := make([]int, len(lines))
+				for i, l := range lines {
+					lens[i] = len(l)
+				}
+				t.Fatalf("query %q over lines of %v characters (%d workers): search %d gives the ranked list (item, sort key)\n  %s\nthe first search gave\n  %s", pat, lens, m.partitions, r+1, got, first)
+			}
+		}
+		vstat.Case("C05/same-search-again", fmt.Sprintf("%q|%q|%d", pat, fmt.Sprint(len(lines), long), m.partitions)+fmt.Sprint(lines[0][:20]), long > 0, fmt.Sprintf("long_lines=%d", imin(long, 3)), fmt.Sprintf("searches=%d", rounds))
+	})
+}
